@@ -11,6 +11,7 @@ after a refused call, thread termination, and the I/O event log (thread role x
 logical time) whose role sequence must never interleave.  A second part lets
 two user threads issue random calls concurrently under yield injection.
 """
+import os
 import queue
 import threading
 import time
@@ -93,7 +94,20 @@ class Harness(object):
             io.phase = 'done'
             self._await_eof(io)
             return
-        scripts.login_offline(io, pv, None, codec, encrypted=self.encrypted)
+        if getattr(self, 'plugin_request', False):
+            # a login plugin request before anything else (pv >= 393)
+            io.recv_frame()                       # login start
+            qid, qp = codec.encode('plugin_request', {
+                'message_id': 3, 'channel': 'vf:hold', 'data': b''})
+            io.send_frame(qid, qp)
+            try:
+                io.recv_frame(3.0)                # the answer (or nothing)
+            except mcserver.ScriptTimeout:
+                pass
+            scripts.send_login_success(io, pv, codec)
+        else:
+            scripts.login_offline(io, pv, getattr(self, 'threshold', None),
+                                  codec, encrypted=self.encrypted)
         if mode == 'stall':
             # a hung server: the beginning of a frame, then silence - it does
             # not even react to the client's end-of-stream
@@ -157,6 +171,14 @@ class Harness(object):
             elif cmd[0] == 'kick':
                 did, dp = codec.encode('play_disconnect', {'reason': '"kick"'})
                 io.send_frame(did, dp)
+            elif cmd[0] == 'pos':
+                cid, cp = codec.encode('cb_position_look', {
+                    'x': 1.0, 'y': 2.0, 'z': 3.0, 'yaw': 4.0, 'pitch': 5.0,
+                    'flags': 0, 'teleport_id': 9, 'dismount': False})
+                io.send_frame(cid, cp)
+            elif cmd[0] == 'setcomp' and pv == 47:
+                io.send_frame(0x46, ref.encode_field('varint', 64))
+                io.enable_compression(64)
             elif cmd[0] == 'ka-noecho':
                 kid, kp = codec.encode('cb_keep_alive', {'id': cmd[1]})
                 io.send_frame(kid, kp)
@@ -1248,6 +1270,180 @@ def disconnect_during_reaction_case(run, rng, pv, idx):
             pc.safe_disconnect(conn)
 
 
+def reaction_sites():
+    """Statement-start lines of the library's own reactions (login and play
+    state) and of the dispatch around them: [(code, line, label, state)]."""
+    import inspect
+    from minecraft.networking import connection as C
+    import re
+    sites = []
+    for fn, state in ((C.LoginReactor.react, 'login'),
+                      (C.PlayingReactor.react, 'play'),
+                      (C.Connection._react, 'any')):
+        src, first = inspect.getsourcelines(fn)
+        branch = ''
+        for i, ln in enumerate(src[1:], 1):
+            t = ln.strip()
+            m = re.match(r'(?:el)?if packet\.packet_name == "([^"]+)"', t)
+            if m:
+                branch = m.group(1)
+            if not t or t.startswith(('#', 'elif ', 'else:', 'except', 'try:',
+                                      'finally:', '"""', "'")):
+                continue
+            sites.append((fn.__code__, first + i,
+                          '%s:+%d %s' % (fn.__qualname__, i, t[:48]),
+                          state + '/' + branch))
+    return sites
+
+
+def hold_sweep_case(run, rng, pv, site_idx):
+    """Delay injection, one statement at a time, over the library's own
+    reactions: the networking thread is held at the chosen statement (first
+    time it gets there) while a user thread calls disconnect().  After that
+    call has returned: no further TCP connection is made, the thread ends,
+    further disconnect() calls do not raise, and the object connects again to
+    a working session."""
+    import sys
+    sites = reaction_sites()
+    code, line, label, state = sites[site_idx % len(sites)]
+    # the conversation that leads through the statement
+    if state == 'login/login plugin request':
+        pv = (757, 404)[site_idx % 2]
+    elif state == 'play/set compression' or ('position_response' in label):
+        pv = 47
+    elif 'teleport_confirm' in label:
+        pv = (757, 404, 340)[site_idx % 3]
+    H = Harness(pv, encrypted=site_idx % 2 == 0 or
+                state == 'login/encryption request')
+    if state == 'login/set compression':
+        H.threshold = 64
+    if state == 'login/login plugin request':
+        H.plugin_request = True
+        H.encrypted = False
+    if state == 'login/disconnect':
+        H.next_mode = 'login-disconnect'
+    rec = pc.Recorder()
+    conn = None
+    held, release = threading.Event(), threading.Event()
+    armed = [True]
+    mon = sys.monitoring
+    TOOL = 4
+    w = {'pv': pv, 'held_at': label, 'encrypted': H.encrypted}
+
+    def on_line(co, lineno):
+        if co is code and lineno == line and armed[0]:
+            armed[0] = False
+            held.set()
+            release.wait(6.0)
+        return None
+    try:
+        K = pc.monitored_connection_class()
+        conn = K('127.0.0.1', H.server.port, username='vfuser',
+                 allowed_versions={pv}, handle_exception=rec.handle_exception,
+                 handle_exit=rec.handle_exit)
+        conn.vf_log = rec.log
+        mon.use_tool_id(TOOL, 'vf-hold-sweep')
+        mon.register_callback(TOOL, mon.events.LINE, on_line)
+        mon.set_local_events(TOOL, code, mon.events.LINE)
+        conn.connect()
+        if not held.wait(1.5):
+            # not a statement of the login phase: drive the play state
+            live = None
+            if pc.wait_for(lambda: H.ios and getattr(H.ios[-1], 'phase', '')
+                           == 'play', 8.0):
+                live = H.ios[-1]
+            if live is None and state.startswith('login/'):
+                # (a statement of a login branch this conversation does not
+                # lead through, e.g. the other arm of a condition)
+                run.count('hold_sweep.statement_never_reached')
+                run.seen('hold_sweep_unreached', label)
+                return None
+            if live is None:
+                return 'never reached play state'
+            for cmd in (('setcomp',), ('ka-noecho', 4711), ('pos',),
+                        ('kick',)):
+                if held.is_set():
+                    break
+                live.cmds.put(cmd)
+                held.wait(0.7)
+        if not held.is_set():
+            run.count('hold_sweep.statement_never_reached')
+            run.seen('hold_sweep_unreached', label)
+            if os.environ.get('VF_DEBUG'):
+                open('/tmp/hold_unreached.txt', 'a').write('UNREACHED %s pv=%d enc=%s\n' % (
+                    label, pv, H.encrypted))
+            return None
+        result = {}
+
+        def user():
+            try:
+                conn.disconnect(immediate=site_idx % 3 == 0)
+            except Exception as e:
+                result['raised'] = e
+            result['generation'] = getattr(conn, 'vf_generation', 0)
+        t = threading.Thread(target=user, name='user-disconnect', daemon=True)
+        t.start()
+        t.join(0.3)
+        release.set()
+        t.join(10.0)
+        if t.is_alive():
+            run.violation('disconnect/blocked', 'disconnect() did not return '
+                          'within 10 s of the networking thread going on',
+                          dict(w, threads=pc.dump_threads()[-600:]))
+            return None
+        time.sleep(0.2)
+        settled = pc.wait_idle(conn, 5.0)
+        raised = []
+        if 'raised' in result:
+            raised.append(('while the thread was held', repr(result['raised'])))
+        for k in range(2):
+            try:
+                conn.disconnect()
+            except Exception as e:
+                raised.append(('call %d afterwards' % (k + 1), repr(e)))
+        later = getattr(conn, 'vf_generation', 0) - result['generation']
+        run.count('hold_sweep_cases')
+        run.seen('hold_sweep_sites', label)
+        if raised:
+            run.violation('disconnect/raised/held-in-reaction',
+                          'disconnect() raised; the first call had been made '
+                          'while the networking thread was inside a reaction',
+                          dict(w, raised=raised))
+        if later or not settled:
+            run.violation('disconnect/goes-on/held-in-reaction',
+                          'after disconnect() had returned the object opened '
+                          'a connection or kept a networking thread',
+                          dict(w, connections_after_disconnect=later,
+                               networking_thread_alive=not settled))
+            return None
+        H.next_mode = 'hold'
+        n0 = len(H.ios)
+        try:
+            conn.connect()
+        except Exception as e:
+            run.violation('reconnect/held-in-reaction', 'connect() raised on '
+                          'the idle object', dict(w, error=repr(e)))
+            return None
+        ok = pc.wait_for(lambda: len(H.ios) > n0 and getattr(
+            H.ios[-1], 'phase', '') == 'play', 10.0) and H.alive(H.ios[-1])
+        if not ok:
+            run.violation('reconnect/held-in-reaction', 'the object did not '
+                          'produce a working session afterwards',
+                          dict(w, exc=repr(rec.exceptions[:2])))
+        return None
+    finally:
+        release.set()
+        try:
+            mon.set_local_events(TOOL, code, 0)
+            mon.register_callback(TOOL, mon.events.LINE, None)
+            mon.free_tool_id(TOOL)
+        except Exception:
+            pass
+        H.stop()
+        if conn is not None:
+            pc.safe_disconnect(conn)
+
+
 def stale_error_vs_successor_case(run, rng, pv, idx):
     """Delay injection at one statement: connect() is negotiating the version
     with a server that does not answer the status query; a user thread calls
@@ -1768,6 +1964,20 @@ def run(run):
         if err:
             run.inconclusive_because('stale error vs successor %d: %s'
                                      % (i, err))
+    n_sites = len(reaction_sites())
+    sweep = list(range(n_sites * 2)) if thorough else \
+        rng.sample(range(n_sites * 2), 24)
+    for j, i in enumerate(sweep):
+        if not run.mine(j):
+            continue
+        err = None
+        for attempt in range(3):
+            err = hold_sweep_case(run, rng, (757, 404, 340, 47)[i % 4], i)
+            if err is None:
+                break
+        run.case(('hold-sweep', i))
+        if err:
+            run.inconclusive_because('hold sweep %d: %s' % (i, err))
     for i in range(48 if thorough else 16):
         if not run.mine(i):
             continue
